@@ -180,6 +180,12 @@ func (mr *MigrationRunner) runMigration(ctx context.Context, migrationIndex uint
 		return ctx.Err()
 	}
 
+	if err != nil {
+		// Interrupted without a resume state: the migration did not complete,
+		// so it must not be marked as applied.
+		return fmt.Errorf("executing migration: %w", err)
+	}
+
 	mr.metadata.CurrentVersion.Set(migrationIndex)
 	txn := mr.database.NewBatch()
 	if err := WriteSchemaMetadata(txn, mr.metadata); err != nil {
